@@ -46,14 +46,15 @@ def enc_g(spec, smart):
         items.append(_chk(sym) + "=" + "|".join(
             "~" if not a else ".".join(_chk(s) for s in a) for a in alts))
     prods = ";".join(items) or "-"
-    return "g %d %s %s %s %s %s %s" % (1 if smart else 0, _chk(spec["start"]), tok, syn, kw, skip, prods)
+    start = "-" if spec["start"] is None else _chk(spec["start"])
+    return "g %d %s %s %s %s %s %s" % (1 if smart else 0, start, tok, syn, kw, skip, prods)
 
 
 def dec_g(line):
     f = line.split()
     assert f[0] == "g" and len(f) == 8, line
     smart = f[1] == "1"
-    spec = {"start": f[2], "tok": [], "syn": {}, "kw": [], "skip": None, "prods": []}
+    spec = {"start": None if f[2] == "-" else f[2], "tok": [], "syn": {}, "kw": [], "skip": None, "prods": []}
     for it in f[3].split(";"):
         n, rx = it.split("~")
         spec["tok"].append([n, dec_str(rx)])
@@ -98,14 +99,22 @@ def raw_lex(spec, text):
     return out
 
 
-def enc_p(spec, text):
+def enc_p(spec, text, start=None):
+    """`p` = parse(text); `ps X` = parse(text, start_symbol_name=X)"""
     raw = raw_lex(spec, text)
     assert raw is not None, "generator produced a text that does not lex: %r" % text
-    return "p %s %s" % (enc_str(text), ";".join("%s~%s" % (n, enc_str(v)) for n, v in raw) or "-")
+    head = "p" if start is None else "ps %s" % _chk(start)
+    return "%s %s %s" % (head, enc_str(text), ";".join("%s~%s" % (n, enc_str(v)) for n, v in raw) or "-")
 
 
 def dec_p(line):
-    return dec_str(line.split()[1])
+    f = line.split()
+    return dec_str(f[2] if f[0] == "ps" else f[1])
+
+
+def start_of(spec):
+    """the start symbol the constructor uses ('E' when start_symbol_name is not given)"""
+    return "E" if spec["start"] is None else spec["start"]
 
 
 # ------------------------------------------------------------------ real code
@@ -176,7 +185,9 @@ def build(spec, smart, trace_budget=None):
     kw = {(t, v): t2 for t, v, t2 in spec["kw"]}
     args = dict(productions=prods, synonyms=dict(spec["syn"]) or None, keywords=kw or None,
                 skip_tokens=None if spec["skip"] is None else set(spec["skip"]),
-                start_symbol_name=spec["start"], smart_factorization=smart)
+                smart_factorization=smart)
+    if spec["start"] is not None:
+        args["start_symbol_name"] = spec["start"]
     old = signal.signal(signal.SIGALRM, _alarm)
     signal.setitimer(signal.ITIMER_REAL, 20.0)
     try:
@@ -219,15 +230,16 @@ def stack_bound(parser, text):
     return (len(text) + 2) * (len(parser.prods_map) + len(parser.terminals) + 3)
 
 
-def parse_reply(parser, text, trace_budget=None):
+def parse_reply(parser, text, trace_budget=None, start=None):
     old = signal.signal(signal.SIGALRM, _alarm)
     signal.setitimer(signal.ITIMER_REAL, 120.0 if trace_budget else 20.0)
     try:
+        kw = {} if start is None else {"start_symbol_name": start}
         if trace_budget:
             with LineBudget(trace_budget, stack_bound(parser, text)):
-                t = parser.parse(text, do_cleanup=False)
+                t = parser.parse(text, do_cleanup=False, **kw)
         else:
-            t = parser.parse(text, do_cleanup=False)
+            t = parser.parse(text, do_cleanup=False, **kw)
         signal.setitimer(signal.ITIMER_REAL, 0)
         return "tree " + show_tree(t)
     except StackBoundExceeded:
@@ -279,13 +291,14 @@ def impl(case, trace_budget=None, parse_budget=None):
             parser, rep = build(spec, smart, trace_budget)
             overrun = False
             out.append(rep)
-        elif op == "p":
+        elif op in ("p", "ps"):
             if parser is None:
                 out.append("nogrammar")
             elif overrun:           # one overrun per parser is enough evidence; do not burn the budget again
                 out.append("skipped-after-overrun")
             else:
-                rep = parse_reply(parser, dec_p(line), parse_budget or trace_budget)
+                rep = parse_reply(parser, dec_p(line), parse_budget or trace_budget,
+                                  start=line.split()[1] if op == "ps" else None)
                 overrun = rep in ("err BudgetExceeded", "err StackBoundExceeded")
                 out.append(rep)
         elif op == "amb":       # is_ambiguous() again, after the parses (the table must not have changed)
@@ -319,7 +332,7 @@ def clean(spec):
     """a grammar in the ordinary sense: known symbols, disjoint alphabets, distinct alternatives"""
     g = user_grammar(spec)
     terms = terminal_names(spec)
-    if len(g) != len(spec["prods"]) or spec["start"] not in g:
+    if len(g) != len(spec["prods"]) or start_of(spec) not in g:
         return False
     for sym, alts in g.items():
         if "__" in sym or sym in terms or sym in ("$END$", "$START$") or len(set(alts)) != len(alts):
@@ -541,15 +554,21 @@ VARIANTS = {
                   T=["a", "KB", "w"], lex={"a": "a", "b": "KB", "c": "w"}, sep=" ", noise="!"),
     "swap": dict(tok=[["SPACE", r"\s+"], ["a", "b"], ["b", "a"], ["c", "c"]], syn={}, kw=[], skip=None,
                  T=["a", "b", "c"], lex={"b": "a", "a": "b", "c": "c"}, sep=" ", noise=""),
+    "spaceterm": dict(tok=[["SPACE", "_"], ["a", "a"], ["b", "b"]], syn={}, kw=[], skip=[],
+                      T=["a", "b", "SPACE"], lex={"a": "a", "b": "b", "_": "SPACE"}, sep="", noise=""),
+    "skipb": dict(tok=[["SPACE", "_"], ["a", "a"], ["b", "b"], ["c", "c"]], syn={}, kw=[], skip=["b"],
+                  T=["a", "c", "SPACE"], lex={"a": "a", "c": "c", "_": "SPACE"}, sep="", noise="b"),
+    "comment": dict(tok=[["SPACE", r"\s+"], ["COMMENT", r"\#"], ["a", "a"], ["b", "b"], ["c", "c"]], syn={}, kw=[],
+                    skip=None, T=["a", "b", "c"], lex={"a": "a", "b": "b", "c": "c"}, sep=" ", noise="#"),
     "noskip": dict(tok=[["SPACE", r"\s+"], ["a", "a"], ["b", "b"], ["c", "c"]], syn={}, kw=[], skip=[],
                    T=["a", "b", "c"], lex={"a": "a", "b": "b", "c": "c"}, sep="", noise=""),
 }
 NT_POOLS = [
-    ["E", "A", "B", "C", "D"],
-    ["E", "Z", "N", "M", "A"],
-    ["Expr", "Aa", "B", "T1", "Zz9"],
-    ["S", "E", "x1", "Ab", "AB"],
-    ["Z", "Y", "X", "W", "V"],
+    ["E", "A", "B", "C", "D", "F"],
+    ["E", "Z", "N", "M", "A", "K"],
+    ["Expr", "Aa", "B", "T1", "Zz9", "Item"],
+    ["S", "E", "x1", "Ab", "AB", "q"],
+    ["Z", "Y", "X", "W", "V", "U"],
 ]
 
 
@@ -600,7 +619,7 @@ def gen_shaped(rng, T, nts):
     for i, nt in enumerate(nts):
         later = nts[i + 1:]
         alts = []
-        shape = rng.choice(["prefix", "prefix", "nonadjacent", "chain", "fail-late", "mixed"])
+        shape = rng.choice(["prefix", "prefix", "nonadjacent", "chain", "fail-late", "mixed", "prefixperm", "prefixperm"])
 
         def sym(first):
             if first:
@@ -614,6 +633,17 @@ def gen_shaped(rng, T, nts):
                 alts.append(stem[:c] + tail)
             if rng.random() < 0.5:   # a second level with the same stem
                 alts.insert(rng.randint(0, len(alts)), stem + [sym(False)])
+        if shape == "prefixperm":
+            # 3-4 alternatives sharing prefixes of unequal length with one stem, in every order: a strict prefix of
+            # the first alternative may come after an alternative that shares a longer prefix with it
+            stem = [sym(True)] + [sym(False) for _ in range(rng.randint(2, 4))]
+            ks = rng.sample(range(1, len(stem) + 1), min(len(stem), rng.randint(3, 4)))
+            for c in ks:
+                tail = [] if rng.random() < 0.5 else [rng.choice(T)]
+                alts.append(stem[:c] + tail)
+            if rng.random() < 0.5:
+                alts.append(stem[:rng.randint(1, len(stem))] + [rng.choice(T), rng.choice(T)])
+            rng.shuffle(alts)
         if shape in ("nonadjacent", "mixed"):
             f = sym(True)
             alts.append([f] + [sym(False) for _ in range(rng.randint(0, 2))])
@@ -774,6 +804,45 @@ def gen_dfs_shapes(rng, T, nts):
     return [[nt, _dedupe(g[nt])] for nt in nts]
 
 
+def gen_firstchain(rng, T, nts):
+    """late dependencies of the fixpoints: R -> S .. ; S -> N.. B t with nullable N; B gets its first token only
+    through a chain of unit rules B -> C -> D -> t; FOLLOW travels the other way (.. X at the end of rules);
+    the symbols are declared in random (often adverse) order"""
+    if len(nts) < 4:
+        return gen_nonleftrec(rng, T, nts)
+    R, rest = nts[0], list(nts[1:])
+    rng.shuffle(rest)
+    S, A, chain = rest[0], rest[1], rest[2:]
+    g = {}
+    g[R] = [[S] + ([rng.choice(T)] if rng.random() < 0.5 else [])]
+    if rng.random() < 0.4:
+        g[R].append([rng.choice(T), S])
+    pre = [A] * rng.randint(1, 2)
+    g[S] = [pre + [chain[0]] + [rng.choice(T) for _ in range(rng.randint(0, 1))]]
+    if rng.random() < 0.4:
+        g[S].append([rng.choice(T)])
+    g[A] = [[rng.choice(T)], []]
+    rng.shuffle(g[A])
+    for i, c in enumerate(chain):
+        if i + 1 < len(chain):
+            g[c] = [[chain[i + 1]] + ([A] if rng.random() < 0.3 else [])]
+            if rng.random() < 0.3:
+                g[c].append([rng.choice(T), rng.choice(T)])
+        else:
+            g[c] = [[rng.choice(T)] + ([rng.choice(T)] if rng.random() < 0.3 else [])]
+            if rng.random() < 0.3:
+                g[c].append([])
+    order = list(nts)
+    r = rng.random()
+    if r < 0.4:
+        order = [R, S, A] + chain            # declaration order = dependency order (adverse for work-lists)
+    elif r < 0.7:
+        order = list(reversed([R, S, A] + chain))
+    else:
+        rng.shuffle(order)
+    return [[nt, _dedupe(g[nt])] for nt in order]
+
+
 def gen_malformed(rng, T, nts):
     g = gen_nonleftrec(rng, T, nts)
     kind = rng.choice(["unknown-symbol", "no-start", "nt-is-terminal", "dunder", "duplicate-alt", "end-used",
@@ -823,7 +892,14 @@ def render(rng, var, w):
         inv.setdefault(name, []).append(ch)
     parts = [rng.choice(inv[t]) for t in w]
     if var["sep"] == "":
-        return "".join(parts)
+        if not var["noise"]:
+            return "".join(parts)
+        out = ""
+        for p_ in parts:
+            if rng.random() < 0.2:
+                out += var["noise"]
+            out += p_
+        return out + (var["noise"] if rng.random() < 0.1 else "")
     out = ""
     for i, p in enumerate(parts):
         if i:
@@ -839,12 +915,18 @@ def render(rng, var, w):
 
 
 def make_case(spec, var_name, words, texts, meta, diags=("prods", "suffix", "table", "nullables", "first", "follow"),
-              lexmap=None):
+              lexmap=None, seqs=()):
+    """per smart value: construct, diagnostics, the parses, then the call sequences `seqs` = [(X, text), ...]:
+    parse(text, start_symbol_name=X) followed by a plain parse(text) on the same parser object, then
+    is_ambiguous() once more"""
     lines = []
     for smart in (True, False):
         lines.append(enc_g(spec, smart))
         lines.extend(diags)
         for t in texts:
+            lines.append(enc_p(spec, t))
+        for x, t in seqs:
+            lines.append(enc_p(spec, t, start=x))
             lines.append(enc_p(spec, t))
         lines.append("amb")
     m = dict(meta)
@@ -852,15 +934,15 @@ def make_case(spec, var_name, words, texts, meta, diags=("prods", "suffix", "tab
     return {"lines": lines, "meta": m, "lexmap": dict(VARIANTS[var_name]["lex"] if lexmap is None else lexmap)}
 
 
-def gen_spec(rng, malformed_share=0.05, hidden_share=0.04, ll1_share=0.2, dfs_share=0.03):
+def gen_spec(rng, malformed_share=0.05, hidden_share=0.04, ll1_share=0.2, dfs_share=0.03, chain_share=0.06):
     """-> (spec, variant name, meta)"""
-    var_name = rng.choice(["plain"] * 4 + ["syn", "kw", "synkw", "noskip", "swap"])
+    var_name = rng.choice(["plain"] * 4 + ["syn", "kw", "synkw", "noskip", "swap", "spaceterm", "skipb", "comment"])
     var = VARIANTS[var_name]
     T = list(var["T"])
     pool = list(rng.choice(NT_POOLS))
     if rng.random() < 0.5:
         rng.shuffle(pool)
-    nts = pool[:rng.choice([1, 2, 2, 3, 3, 4, 5])]
+    nts = pool[:rng.choice([1, 2, 2, 3, 3, 4, 5, 6])]
     r = rng.random()
     kind = None
     if r < malformed_share:
@@ -872,6 +954,10 @@ def gen_spec(rng, malformed_share=0.05, hidden_share=0.04, ll1_share=0.2, dfs_sh
         if len(nts) < 3:
             nts = pool[:rng.choice([3, 4, 5])]
         g, gen = gen_dfs_shapes(rng, T, nts), "dfsshapes"
+    elif r < malformed_share + hidden_share + dfs_share + chain_share:
+        if len(nts) < 4:
+            nts = pool[:rng.choice([4, 5, 5, 6])]
+        g, gen = gen_firstchain(rng, T, nts), "firstchain"
     elif r > 1.0 - ll1_share:
         g, gen = gen_ll1ish(rng, T, nts), "ll1ish"
     else:
@@ -883,11 +969,13 @@ def gen_spec(rng, malformed_share=0.05, hidden_share=0.04, ll1_share=0.2, dfs_sh
         else:
             g, gen = gen_shaped(rng, T, nts), "shaped"
     start = nts[0]
-    if rng.random() < 0.2 and gen != "malformed":
+    if start == "E" and rng.random() < 0.5:
+        start = None                 # start_symbol_name not passed: the constructor's default 'E'
+    if rng.random() < 0.2 and gen not in ("malformed", "firstchain"):
         rng.shuffle(g)               # dict order (sort_n, prods_map order) independent of the start symbol
     spec = {"tok": [list(x) for x in var["tok"]], "syn": dict(var["syn"]), "kw": [list(x) for x in var["kw"]],
             "skip": None if var["skip"] is None else list(var["skip"]), "start": start, "prods": g}
-    meta = {"gen": gen}
+    meta = {"gen": gen, "nts": len(nts), "start": "default" if start is None else "explicit"}
     if kind:
         meta["malformed"] = kind
     return spec, var_name, meta
@@ -895,9 +983,9 @@ def gen_spec(rng, malformed_share=0.05, hidden_share=0.04, ll1_share=0.2, dfs_sh
 
 def gen_ll_cases(rng, n_grammars, maxlen, extra_long=0, rec_maxlen=2, malformed_share=0.05, sentences=25,
                  hidden_share=0.04, diags=("prods", "suffix", "table", "nullables", "first", "follow"), ll1_share=0.2,
-                 sent_maxlen=7, dfs_share=0.03):
+                 sent_maxlen=7, dfs_share=0.03, chain_share=0.06):
     for _ in range(n_grammars):
-        spec, var_name, meta = gen_spec(rng, malformed_share, hidden_share, ll1_share, dfs_share)
+        spec, var_name, meta = gen_spec(rng, malformed_share, hidden_share, ll1_share, dfs_share, chain_share)
         var = VARIANTS[var_name]
         ok = clean(spec)
         rec = ok and left_rec(user_grammar(spec))
@@ -905,13 +993,26 @@ def gen_ll_cases(rng, n_grammars, maxlen, extra_long=0, rec_maxlen=2, malformed_
         ml = maxlen if (ok and not rec) else rec_maxlen
         words = list(all_strings(var["T"], ml))
         if ok and not rec:
-            for w in sample_sentences(rng, user_grammar(spec), spec["start"], sentences, sent_maxlen):
+            for w in sample_sentences(rng, user_grammar(spec), start_of(spec), sentences, sent_maxlen):
                 if w not in words:
                     words.append(w)
             for _ in range(extra_long):
                 words.append([rng.choice(var["T"]) for _ in range(rng.randint(maxlen + 1, maxlen + 2))])
         texts = [render(rng, var, w) for w in words]
-        yield make_case(spec, var_name, words, texts, meta, diags=diags)
+        seqs = []
+        if ok and not rec:
+            ug = user_grammar(spec)
+            others = [k for k in ug if k != start_of(spec)]
+            for _ in range(min(3, len(others))):
+                x = rng.choice(others)
+                sent = sample_sentences(rng, ug, x, 2, 5)
+                for w in sent[:2] or [rng.choice(words)]:
+                    seqs.append((x, render(rng, var, w)))
+            if rng.random() < 0.15:      # not a key: AssertionError, and nothing may stick
+                seqs.append(("Nokey", render(rng, var, rng.choice(words))))
+            if seqs:
+                meta["seq"] = len(seqs)
+        yield make_case(spec, var_name, words, texts, meta, diags=diags, seqs=seqs)
 
 
 def tiny_grammars(rng, max_nt=2, max_alts=3, max_len=3, terminals=("a", "b"), limit=None, inputs_len=5):
@@ -935,30 +1036,44 @@ def tiny_grammars(rng, max_nt=2, max_alts=3, max_len=3, terminals=("a", "b"), li
 def _respec(case):
     """decode the case back into (spec, texts, diags)"""
     spec, _ = dec_g(case["lines"][0])
-    texts, diags = [], []
-    for l in case["lines"][1:]:
+    texts, diags, seqs = [], [], []
+    lines = case["lines"][1:]
+    i = 0
+    while i < len(lines):
+        l = lines[i]
         op = l.split()[0]
         if op == "g":
             break
-        if op == "p":
+        if op == "ps":
+            seqs.append((l.split()[1], dec_p(l)))
+            i += 1                      # the plain parse that follows belongs to the sequence
+        elif op == "p":
             texts.append(dec_p(l))
-        else:
+        elif op != "amb":
             diags.append(op)
-    return spec, texts, diags
+        i += 1
+    return spec, texts, diags, seqs
 
 
 def shrink(case):
-    spec, texts, diags = _respec(case)
+    spec, texts, diags, seqs = _respec(case)
     var_name = case["meta"].get("variant", "plain")
 
-    def mk(spec2, texts2, diags2=diags):
+    def mk(spec2, texts2, diags2=diags, seqs2=None):
         try:
-            return make_case(spec2, var_name, [], texts2, case["meta"], diags=tuple(diags2), lexmap=case["lexmap"])
+            return make_case(spec2, var_name, [], texts2, case["meta"], diags=tuple(diags2), lexmap=case["lexmap"],
+                             seqs=seqs if seqs2 is None else seqs2)
         except AssertionError:
             return None
     out = []
     if diags:
         out.append(mk(spec, texts, []))
+    if seqs:
+        out.append(mk(spec, texts, seqs2=[]))
+        if texts:
+            out.append(mk(spec, [], seqs2=seqs))
+        for q in seqs:
+            out.append(mk(spec, [], seqs2=[q]))
     if len(texts) > 1:
         for t in texts:
             out.append(mk(spec, [t]))
@@ -999,12 +1114,20 @@ def tags(case, replies):
     yield "variant:" + m.get("variant", "?")
     if "ref" in m:
         yield "ref:" + m["ref"]
+    if "nts" in m:
+        yield "nts:%d" % m["nts"]
+    if "start" in m:
+        yield "start:" + m["start"]
+    if "malformed" in m:
+        yield "malformed:" + m["malformed"]
     for line, rep in zip(case["lines"], replies):
         op = line.split()[0]
         if op == "g":
             yield "ctor:" + rep.replace(" ", ":")
         elif op == "p":
             yield "parse:" + (rep.split()[0] if not rep.startswith("err") else rep.replace(" ", ":"))
+        elif op == "ps":
+            yield "parse-from:" + (rep.split()[0] if not rep.startswith("err") else rep.replace(" ", ":"))
 
 
 def nontrivial(case, replies):
@@ -1014,7 +1137,7 @@ def nontrivial(case, replies):
 
 
 def observable(i, line):
-    return line.split()[0] in ("g", "p", "amb", "reset")
+    return line.split()[0] in ("g", "p", "ps", "amb", "reset")
 
 
 C03_WITNESS = {"tok": [["SPACE", r"\s+"], ["X", "x"], ["Y", "y"], ["Z", "z"]], "syn": {}, "kw": [], "skip": None,
@@ -1034,6 +1157,23 @@ def dunder_witness_case():
             lines.append(enc_p(DUNDER_WITNESS, t))
         lines.append("amb")
     return {"lines": lines, "meta": {"gen": "corpus", "variant": "plain", "ref": "malformed"},
+            "lexmap": {"a": "a", "b": "b", "c": "c"}}
+
+
+FOLLOW_WITNESS = {"tok": [["SPACE", r"\s+"], ["a", "a"], ["b", "b"], ["c", "c"]], "syn": {}, "kw": [], "skip": None,
+                  "start": "E", "prods": [["E", [["A", "B", "a"], ["b", "B", "c"]]], ["A", [["c"], []]], ["B", [[]]]]}
+
+
+def follow_witness_case():
+    """before 6b1a6af: LL(1) as written, but FOLLOW(A) also got FOLLOW(B) = {a, c} and is_ambiguous() was True"""
+    lines = []
+    for smart in (True, False):
+        lines.append(enc_g(FOLLOW_WITNESS, smart))
+        lines.extend(["nullables", "first", "follow", "table"])
+        for t in ["a", "c a", "b c", "c", "", "b a", "c c a"]:
+            lines.append(enc_p(FOLLOW_WITNESS, t))
+        lines.append("amb")
+    return {"lines": lines, "meta": {"gen": "corpus", "variant": "plain", "ref": "ok"},
             "lexmap": {"a": "a", "b": "b", "c": "c"}}
 
 
